@@ -352,7 +352,10 @@ def check_valid(hyps, goal, timeout_ms=None, want_model=True):
     r2 = s2.check()
     if r2 == z3.unsat:
         return Verdict("discharged", "z3-%s(api, quantifier-free weakening)" % z3.get_version_string(), time.time() - t0)
-    if r2 == z3.sat and not _has_quantifier(goal):
+    timed_out = any(w in str(reason).lower() for w in ("timeout", "canceled", "cancelled", "max. memory", "resource"))
+    if r2 == z3.sat and not _has_quantifier(goal) and not timed_out:
+        # only when the full query was given up for incompleteness: a query that merely ran out of time (a loaded machine)
+        # stays undecided, it never becomes a violation
         return Verdict("refuted", "z3-%s(api, quantifier-free weakening)" % z3.get_version_string(), time.time() - t0,
                        s2.model(), reason="full query: unknown (%s); counter-model of the quantifier-free weakening" % reason)
     # second back end on the exported formula (thorough tier only: it doubles the cost of a hopeless query)
